@@ -5,7 +5,7 @@ replacing elements *after* steps, a Stepper using Network.step (possibly interru
 seeded line event) and the per-element init/step methods in scheduler-chosen order, and a
 Compiler.  Reference model: a readiness state machine per element (DESIGN 5, C19) driven by
 what each operation did to the elements' variable dicts (dict identity = re-initialised,
-next-state identity = stepped) plus the op-level knowledge whether new symbols were used.
+next-state identity = stepped) plus the documented three-phase shape of Network.step.
 """
 
 from __future__ import annotations
@@ -546,7 +546,7 @@ COMPONENTS = {
 ASSUMPTIONS = {
     "C19": [
         "'has states/actions/disturbances' means the class-level declarations _states/_actions/_disturbances",
-        "re-initialisation with the *same* symbols after a step does not make the element 'not stepped' (the old next state is still a function of the current symbols); re-initialisation with new symbols does",
+        "the statement is read literally: an element (re-)initialised after it was last stepped -- with new or with the same symbols -- has not been stepped; Network.step initialises every element before it steps any",
         "'ready but raised' (e.g. a neighbour's symbols changed, or a symbolic T not passed as parameter) is counted, not flagged: it is C07's concern",
         "in mixed per-element histories only the free-symbol clause is required of a returned function; 'reflects the most recent step' is checked right after a complete Network.step",
     ]
